@@ -48,4 +48,29 @@ theorem src_iter_index (shape order : List Nat) (h1 : shape.length ≠ 1) :
   intro a _
   exact get_natL ii (List.idxOf a order)
 
+/-! the one-dimensional branch: the source yields the numbers 0 .. n-1 (translated as one-element tuples), the model's tuples for the only axis -/
+
+theorem flatMap_single {α β : Type} (f : α → β) (xs : List α) : xs.flatMap (fun a => [f a]) = xs.map f := by
+  induction xs with
+  | nil => rfl
+  | cons x xs ih => simp [List.flatMap_cons, ih]
+
+theorem iterIndex_1d (n : Nat) : iterIndex [n] [0] = (List.range n).map (fun i => [i]) := by
+  simp only [iterIndex, ndindex, List.map_cons, List.map_nil, List.length_singleton, List.range_one, List.getD_cons_zero]
+  simp only [List.map_flatMap, List.map_cons, List.map_nil]
+  rw [flatMap_single]
+  apply List.map_congr_left
+  intro a _
+  simp
+
+theorem src_iter_index_1d (n : Nat) : iter_index (natL [n]) (natL [0]) = (iterIndex [n] [0]).map natL := by
+  have he : ((Py.len (natL [n])) == (1 : Int)) = true := by simp [Py.len, natL]
+  simp only [iter_index, Id.run, he, ↓reduceIte, pure_bind, append_loop, List.nil_append]
+  have hg : Py.get (natL [n]) (0 : Int) = (n : Int) := by simp [Py.get, natL]
+  rw [hg, range_natL, iterIndex_1d]
+  simp only [pure, natL, List.map_map]
+  apply List.map_congr_left
+  intro a _
+  simp
+
 end XoGen
